@@ -65,3 +65,70 @@ parse_class = Contract(
 parse_class.opaque = {"get_docstring": {"ret": "none"}, "to_code": {"ret": "str"}}
 
 CONTRACTS = [parse_class]
+
+# ------------------------------------------------------------------------------------------- parse.function (C03 / C07 / C13): undocumented definitions
+def _arg(name, ann=None):
+    return ("node", "ast.arg", {"arg": name, "annotation": ann, "type_comment": None})
+
+
+def _fdef(args, defaults, kwonly=(), kw_defaults=(), body=None, kwarg=None, returns=None):
+    return ("node", "ast.FunctionDef", {
+        "name": "str", "decorator_list": ("list", []), "returns": returns, "type_comment": None,
+        "body": ("list", body if body is not None else [_PASS]),
+        "args": ("node", "ast.arguments", {"posonlyargs": ("list", []), "args": ("list", list(args)), "vararg": None, "kwonlyargs": ("list", list(kwonly)),
+                                           "kw_defaults": ("list", list(kw_defaults)), "kwarg": kwarg, "defaults": ("list", list(defaults))})})
+
+
+def _pf_case(name, fdef, assume=()):
+    return Case(name, {"function_def": fdef, "infer_type": False, "word_wrap": True, "function_type": None, "function_name": None},
+                assume=["function_def.name != ''"] + list(assume))
+
+
+_RET0 = ("node", "ast.Return", {"value": _INT})
+_PF_CASES = [
+    _pf_case("positional,last-defaulted", _fdef([_arg("a"), _arg("b")], [_INT])),
+    _pf_case("positional,all-defaulted", _fdef([_arg("a"), _arg("b")], [_INT, _STR])),
+    _pf_case("positional,none-defaulted", _fdef([_arg("a"), _arg("b")], [])),
+    _pf_case("method", _fdef([_arg("self"), _arg("a")], [_INT])),
+    _pf_case("kwonly,mixed", _fdef([_arg("a")], [], kwonly=[_arg("k"), _arg("m")], kw_defaults=[None, _INT])),
+    _pf_case("annotated", _fdef([_arg("a", ("obj", "ast.expr"))], [_INT])),
+    _pf_case("returns-value", _fdef([_arg("a")], [], body=[_PASS, _RET0])),
+]
+_P = "result['params']"
+_UNQ_B = "(D[1:-1] if len(D) >= 2 and D[0] == D[-1] and D[0] in ('\"', \"'\") else D)".replace("D", "function_def.args.defaults[1].value")
+
+parse_function = Contract(
+    "doctrans.parse:function",
+    properties=["C03", "C07", "C13", "C16"],
+    note="an undocumented FunctionDef (get_docstring is opaque and answers None) with positional / keyword-only arguments, with and without defaults, "
+         "as function or method; to_code is opaque; ir_merge, func_arg2param, _set_name_and_type, _interpolate_return are inlined, needs_quoting by contract",
+    cases=_PF_CASES,
+    use_contract_for=["doctrans.defaults_utils:needs_quoting"],
+    ensures=[
+        Clause("PF-head", "result['name'] == function_def.name and result['type'] == ('self' if False else result['type'])", note="the definition's own name"),
+        Clause("PF-type-static", "result['type'] == 'static'", when=[c.name for c in _PF_CASES if c.name != "method"]),
+        Clause("PF-type-method", "result['type'] == 'self' and list(%s.keys()) == ['a']" % _P, when=["method"], note="C07: the receiver is not a parameter"),
+        Clause("PF-names-2", "list(%s.keys()) == ['a', 'b']" % _P, when=["positional,last-defaulted", "positional,all-defaulted", "positional,none-defaulted"],
+               note="C07: exactly the parameters Python sees, once each, in source order"),
+        Clause("PF-last-defaulted", "('default' in %s['a']) == False and %s['b']['default'] == function_def.args.defaults[0].value" % (_P, _P), when=["positional,last-defaulted"],
+               note="C07: a shorter defaults list belongs to the LAST positional parameters"),
+        Clause("PF-all-defaulted", "%s['a']['default'] == function_def.args.defaults[0].value and (function_def.args.defaults[1].value in ('None', %r) or %s['b']['default'] == %s)" % (_P, NONESTR, _P, _UNQ_B),
+               when=["positional,all-defaulted"], note="(a str default is unquoted once, as everywhere: _infer_default IDF-str; the two None spellings are PF-none-string)"),
+        Clause("PF-none-string", "function_def.args.defaults[1].value != 'None' or %s['b']['default'] == 'None'" % _P, when=["positional,all-defaulted"],
+               note="C07: a string default that happens to read 'None' is still that string (REFUTED on the pinned tree: finding D-nonestring - it is read as None)"),
+        Clause("PF-none-defaulted", "('default' in %s['a']) == False and ('default' in %s['b']) == False" % (_P, _P), when=["positional,none-defaulted"], note="no default is invented"),
+        Clause("PF-method-default", "%s['a']['default'] == function_def.args.defaults[0].value" % _P, when=["method"], note="defaults stay aligned after the receiver is dropped"),
+        Clause("PF-kwonly", "list(%s.keys()) == ['a', 'k', 'm'] and ('default' in %s['k']) == False and %s['m']['default'] == function_def.args.kw_defaults[1].value" % (_P, _P, _P),
+               when=["kwonly,mixed"], note="C07: keyword-only parameters follow the positional ones; a None in kw_defaults means no default"),
+        Clause("PF-annotation", "(log__to_code_results[0].rstrip('\\n')[-10:] == ', optional' or %s['a']['typ'] == log__to_code_results[0].rstrip('\\n'))" % _P, when=["annotated"], note="the type is the source text of the annotation"),
+        Clause("PF-untyped", "('typ' in %s['a']) == False or %s['a']['typ'] is None" % (_P, _P), when=["positional,none-defaulted"], note="no type is invented without infer_type"),
+        Clause("PF-return", "result['returns']['return_type']['default'] == function_def.body[1].value.value", when=["returns-value"]),
+        Clause("PF-no-return", "result['returns'] is None", when=[c.name for c in _PF_CASES if c.name != "returns-value"]),
+        Clause("PF-body", "result['_internal']['from_name'] == function_def.name and len(result['_internal']['body']) == len(function_def.body) "
+                          "and unchanged(result['_internal']['body'][0], function_def.body[0])", note="C16: the body is carried"),
+        Clause("PF-frame", "unchanged(function_def, old_function_def)", note="C13: the caller's tree is not modified (the padding works on a deep copy)"),
+    ],
+    canaries=["result['returns'] is None", "len(result['params']) == 2"],
+)
+parse_function.opaque = {"get_docstring": {"ret": "none"}, "to_code": {"ret": "str"}, "_to_code": {"ret": "str"}}
+CONTRACTS.append(parse_function)
